@@ -290,6 +290,59 @@ pub fn generate(thorough: bool, seed: u64, em: &mut Emitter) {
         c["nontrivial"] = json!(true);
         em.case("verify", c);
     }
+    // (ii') every rejection (and acceptance) path with long attacker-chosen strings made of multi-byte characters:
+    // text that is cut, padded or quoted by byte position (for a message, a log line, a cache key) must not be cut
+    // inside a character. "a" + 2-byte chars has its boundaries at odd offsets, 2-byte chars alone at even ones,
+    // 3- and 4-byte chars cover the rest: some string below is mid-character at every offset from 1 to 300
+    let monsters: Vec<String> = vec![
+        format!("a{}", "é".repeat(150)), "é".repeat(150), "€".repeat(100), format!("ab{}", "€".repeat(100)), "😀".repeat(75), format!("x{}", "😀".repeat(75)),
+    ];
+    for m in &monsters {
+        let disc = |parts: Value| indep::b64url_encode(serde_json::to_string(&parts).unwrap().as_bytes());
+        let dg = |d: &str| indep::hash("sha-256", d);
+        let member = disc(json!(["salt", m, 2]));
+        let element = disc(json!(["salt", m]));
+        let arity1 = disc(json!([m]));
+        let arity4 = disc(json!([m, m, m, m]));
+        let not_array = disc(json!(m));
+        let reserved = disc(json!([m, "_sd", m]));
+        let non_string_name = disc(json!([m, [m], m]));
+        let shapes: Vec<(&str, Value, Vec<String>)> = vec![
+            ("name_exists", json!({m.as_str(): 1, "_sd": [dg(&member)], "_sd_alg": "sha-256"}), vec![member.clone()]),
+            ("accepted_member", json!({"_sd": [dg(&member)], "_sd_alg": "sha-256"}), vec![member.clone()]),
+            ("accepted_element", json!({"arr": [{"...": dg(&element)}], "_sd_alg": "sha-256"}), vec![element.clone()]),
+            ("member_in_placeholder", json!({"arr": [{"...": dg(&member)}], "_sd_alg": "sha-256"}), vec![member.clone()]),
+            ("element_in_sd", json!({"_sd": [dg(&element)], "_sd_alg": "sha-256"}), vec![element.clone()]),
+            ("digest_twice", json!({"_sd": [dg(&member)], "o": {"_sd": [dg(&member)]}, "_sd_alg": "sha-256"}), vec![member.clone()]),
+            ("disclosure_twice", json!({"_sd": [dg(&member)], "_sd_alg": "sha-256"}), vec![member.clone(), member.clone()]),
+            ("arity", json!({"_sd": [dg(&arity1), dg(&arity4)], "_sd_alg": "sha-256"}), vec![arity1.clone(), arity4.clone()]),
+            ("not_array", json!({"_sd": [dg(&not_array)], "_sd_alg": "sha-256"}), vec![not_array.clone()]),
+            ("reserved_name", json!({"_sd": [dg(&reserved)], "_sd_alg": "sha-256"}), vec![reserved.clone()]),
+            ("name_not_string", json!({"_sd": [dg(&non_string_name)], "_sd_alg": "sha-256"}), vec![non_string_name.clone()]),
+            ("alg_name", json!({"_sd": [dg(&member)], "_sd_alg": m}), vec![member.clone()]),
+            ("digests", json!({"_sd": [m, m], "arr": [{"...": m}, {"...": m, m.as_str(): m}], "_sd_alg": "sha-256"}), vec![member.clone()]),
+            ("sd_not_array", json!({"_sd": m, "_sd_alg": "sha-256"}), vec![member.clone()]),
+            ("cnf", json!({"_sd": [dg(&member)], "_sd_alg": "sha-256", "cnf": {"kty": m, "n": m, "e": m}}), vec![member.clone()]),
+            ("cnf_rsa", json!({"_sd": [dg(&member)], "_sd_alg": "sha-256", "cnf": {"kty": "RSA", "n": m, "e": "AQAB"}}), vec![member.clone()]),
+            ("raw_segment", json!({"_sd": [dg(&member)], "_sd_alg": "sha-256"}), vec![m.clone(), member.clone()]),
+        ];
+        for (tag, payload, discs) in shapes {
+            let jwt = sign_hs256(&payload);
+            for kb in ["", m.as_str(), "a.b.c"] {
+                let s = presentation_string(&jwt, &discs, kb);
+                let mut c = untrusted_case(&s, true, "multibyte");
+                c["nontrivial"] = json!(true);
+                c["shape"] = json!(tag);
+                em.case("verify", c);
+            }
+        }
+        // the token string itself
+        for s in [m.clone(), format!("{}~", m), format!("{}~{}~", m, m), format!("{}.{}.{}~{}~", m, m, m, m), format!("a.b.c~{}", m)] {
+            em.case("verify", untrusted_case(&s, true, "multibyte"));
+            em.case("split", json!({ "s": s }));
+            em.case("misc", json!({"s": s, "cnf": {"kty": "RSA", "n": s, "e": s}}));
+        }
+    }
     // huge lists: 10^4 disclosures, _sd with 10^5 entries
     em.case("misc", json!({"gen": "huge_lists"}));
     // (iii) compounded nesting in a child process
